@@ -44,6 +44,9 @@ enum Act {
     EndDrag,
     Zoom { scroll: u8, pos: Option<u8> },
     Resize { size: u8 },
+    /// interact(a size different from the current one, cursor with an active drag mode, no scroll):
+    /// a resize and a drag event delivered in the same call
+    InteractResized { size: u8, pos: u8, mode: u8 },
 }
 
 #[derive(Clone, Copy)]
@@ -323,6 +326,11 @@ impl<C: Cv> Model for CanvasModel<C> {
         for z in 0..SIZES.len() as u8 {
             if z != s.size {
                 out.push(Act::Resize { size: z });
+                for p in 0..np {
+                    for m in modes {
+                        out.push(Act::InteractResized { size: z, pos: p, mode: *m });
+                    }
+                }
             }
         }
     }
@@ -392,6 +400,18 @@ impl<C: Cv> Model for CanvasModel<C> {
                         }
                     }
                 }
+                Act::InteractResized { size, pos, mode } => {
+                    // the call first adopts the new size, then begins / continues the drag
+                    n.size = size;
+                    if let Some(d) = &n.drag {
+                        if d.rotate != (mode == 2) {
+                            // an active drag keeps its mode (begin is idempotent)
+                        }
+                    }
+                    self.shadow_begin(&mut n, pos, mode == 2);
+                    changed = Some(n.canvas.interact(size, Some((pos, mode)), 0.0));
+                    self.check_after_drag(&mut n, pos, &before_rot);
+                }
                 Act::Resize { size } => {
                     n.size = size;
                     n.canvas.resize(size);
@@ -458,7 +478,7 @@ fn run_model<C: Cv>(cx: &mut Cx, case: u64, depth: usize, big: bool) {
             let mut hit = false;
             for a in path.clone().into_actions() {
                 match a {
-                    Act::BeginDrag { mode: 1, .. } => active = true,
+                    Act::BeginDrag { mode: 1, .. } | Act::InteractResized { mode: 1, .. } => active = true,
                     Act::Interact { cursor: Some((_, 1)), scroll } => {
                         if active && scroll != 0 {
                             hit = true;
@@ -497,7 +517,7 @@ impl Check for C18 {
     }
     fn meta(&self, tier: Tier) -> Meta {
         Meta {
-            rule: "explicit-state breadth-first search (stateright) whose transition function calls the real Canvas2 / Canvas3 methods; actions: interact(cursor in {none, position x {no drag, pan, rotate}}, scroll), begin_drag, drag, end_drag, zoom(scroll, position or none), resize, over screen positions {corner, centre, off-canvas, (3,7)}, scrolls {0, +100, -100, 37.5}, image sizes {64x64, 100x50, 33x77}; state key = bit pattern of the view components + image size + shadow record of the active drag (view and position at its start) + depth; per-transition obligations: zoom about p keeps the model point under p (1e-4 relative), while a pan is active the point grabbed at its start stays under the cursor, rotation leaves centre and scale bit-identical with pitch in [0,pi] and |yaw| < 2pi, changed == false when the view is bit-identical, world_to_model == translate*rotate*scale of the components; every obligation is an `always` property; counts: states = unique states, transitions = generated states".into(),
+            rule: "explicit-state breadth-first search (stateright) whose transition function calls the real Canvas2 / Canvas3 methods; actions: interact(cursor in {none, position x {no drag, pan, rotate}}, scroll), begin_drag, drag, end_drag, zoom(scroll, position or none), resize, interact(new image size, position x {pan, rotate}) i.e. a resize and a drag event in one call, over screen positions {corner, centre, off-canvas, (3,7)}, scrolls {0, +100, -100, 37.5}, image sizes {64x64, 100x50, 33x77}; state key = bit pattern of the view components + image size + shadow record of the active drag (view and position at its start) + depth; per-transition obligations: zoom about p keeps the model point under p (1e-4 relative), while a pan is active the point grabbed at its start stays under the cursor, rotation leaves centre and scale bit-identical with pitch in [0,pi] and |yaw| < 2pi, changed == false when the view is bit-identical, world_to_model == translate*rotate*scale of the components; every obligation is an `always` property; counts: states = unique states, transitions = generated states".into(),
             bounds: match tier {
                 Tier::Quick => "depth 3 (3 positions, 3 scrolls)".into(),
                 Tier::Thorough => "depth 4 (4 positions, 4 scrolls) and depth 5 (3 positions, 3 scrolls)".into(),
